@@ -12,6 +12,9 @@ pub struct SLGSolver<I: Interner> {
     pub(crate) forest: Forest<I>,
     pub(crate) max_size: usize,
     pub(crate) expected_answers: Option<usize>,
+    /// True while a solve is running. If it is still set when the next solve
+    /// starts, the previous one unwound and the forest may have lost strands.
+    in_progress: bool,
 }
 
 impl<I: Interner> SLGSolver<I> {
@@ -20,7 +23,18 @@ impl<I: Interner> SLGSolver<I> {
             forest: Forest::new(),
             max_size,
             expected_answers,
+            in_progress: false,
         }
+    }
+
+    fn begin_solve(&mut self) {
+        if self.in_progress {
+            // The previous solve unwound (e.g. a database callback panicked)
+            // while strands were held outside of their tables; the tables may
+            // be missing strands, so start over with an empty forest.
+            self.forest = Forest::new();
+        }
+        self.in_progress = true;
     }
 }
 
@@ -36,8 +50,11 @@ impl<I: Interner> Solver<I> for SLGSolver<I> {
         program: &dyn RustIrDatabase<I>,
         goal: &UCanonical<InEnvironment<Goal<I>>>,
     ) -> Option<Solution<I>> {
+        self.begin_solve();
         let ops = SlgContextOps::new(program, self.max_size, self.expected_answers);
-        ops.make_solution(goal, self.forest.iter_answers(&ops, goal), || true)
+        let solution = ops.make_solution(goal, self.forest.iter_answers(&ops, goal), || true);
+        self.in_progress = false;
+        solution
     }
 
     fn solve_limited(
@@ -46,8 +63,12 @@ impl<I: Interner> Solver<I> for SLGSolver<I> {
         goal: &UCanonical<InEnvironment<Goal<I>>>,
         should_continue: &dyn std::ops::Fn() -> bool,
     ) -> Option<Solution<I>> {
+        self.begin_solve();
         let ops = SlgContextOps::new(program, self.max_size, self.expected_answers);
-        ops.make_solution(goal, self.forest.iter_answers(&ops, goal), should_continue)
+        let solution =
+            ops.make_solution(goal, self.forest.iter_answers(&ops, goal), should_continue);
+        self.in_progress = false;
+        solution
     }
 
     fn solve_multiple(
@@ -56,9 +77,10 @@ impl<I: Interner> Solver<I> for SLGSolver<I> {
         goal: &UCanonical<InEnvironment<Goal<I>>>,
         f: &mut dyn FnMut(SubstitutionResult<Canonical<ConstrainedSubst<I>>>, bool) -> bool,
     ) -> bool {
+        self.begin_solve();
         let ops = SlgContextOps::new(program, self.max_size, self.expected_answers);
         let mut answers = self.forest.iter_answers(&ops, goal);
-        loop {
+        let all_processed = loop {
             let subst = match answers.next_answer(|| true) {
                 AnswerResult::Answer(answer) => {
                     if !answer.ambiguous {
@@ -76,15 +98,18 @@ impl<I: Interner> Solver<I> for SLGSolver<I> {
                 }
                 AnswerResult::Floundered => SubstitutionResult::Floundered,
                 AnswerResult::NoMoreSolutions => {
-                    return true;
+                    break true;
                 }
                 AnswerResult::QuantumExceeded => continue,
             };
 
             if !f(subst, !answers.peek_answer(|| true).is_no_more_solutions()) {
-                return false;
+                break false;
             }
-        }
+        };
+        drop(answers);
+        self.in_progress = false;
+        all_processed
     }
 }
 
